@@ -8,6 +8,7 @@ import (
 	"flag"
 	"fmt"
 	"math/big"
+	"os"
 	"reflect"
 	"runtime"
 	"strings"
@@ -149,6 +150,10 @@ func (g *Group) msmEvent(t *TraceWriter, rc *recipe, points, scalars reflect.Val
 	}
 	prev := runtime.GOMAXPROCS(procs)
 	defer runtime.GOMAXPROCS(prev)
+	if flushEach {
+		// a panic in a library goroutine kills the driver: name the call that is about to run
+		fmt.Fprintf(os.Stderr, "c04 call: %s %s pat=%s n=%d c=%d nbTasks=%d procs=%d\n", g.C.Name, variant, rc.pat, rc.n, c, nbTasks, procs)
+	}
 	cfg := reflect.ValueOf(ecc.MultiExpConfig{NbTasks: nbTasks})
 	var out []reflect.Value
 	var pm string
